@@ -4,7 +4,7 @@ ID=$1; NAME=$2; DET=$3; NOTE=$4
 SRC=${SEEDROOT:-/tmp/seed}/$ID; DST=/verif/seeded/$NAME
 mkdir -p $DST/demo
 cp $SRC/patch.diff $DST/patch.diff
-( cd $SRC/demo && find . -maxdepth 2 -type f ! -name gjs ! -path './work/*' ! -name '*.exe' -size -200k | while read f; do mkdir -p "$DST/demo/$(dirname $f)"; cp "$f" "$DST/demo/$f"; done )
+( cd $SRC/demo && find . -maxdepth 5 -type f ! -name gjs ! -path './work/*' ! -name '*.exe' -size -200k | while read f; do mkdir -p "$DST/demo/$(dirname $f)"; cp "$f" "$DST/demo/$f"; done )
 python3 - "$SRC/meta.json" "$DST/meta.json" "$ID" "$DET" "$NOTE" <<'PY'
 import json,sys
 src,dst,pid,det,note=sys.argv[1:6]
